@@ -7,7 +7,7 @@ git -C /repo worktree remove --force $WT 2>/dev/null
 git -C /repo worktree add -q --detach $WT HEAD || exit 3
 ( cd $WT && git apply /verif/seeded/$ID/patch.diff ) || { echo "SEEDED $ID $PROP: patch does not apply"; git -C /repo worktree remove --force $WT; exit 3; }
 mkdir -p /tmp/seedrun-out/$ID
-VERIF_REPO=$WT VERIF_EVIDENCE_DIR=/tmp/seedrun-out/$ID VERIF_REPLAY_DIR=/tmp/seedrun-out/$ID/replays VERIF_SCRATCH_TAG=-seed-$ID /verif/bin/check $PROP --tier $TIER > /tmp/seedrun-out/$ID/$PROP.out 2>&1
+cp /repo/Cargo.lock $WT/ 2>/dev/null; VERIF_REPO=$WT VERIF_EVIDENCE_DIR=/tmp/seedrun-out/$ID VERIF_REPLAY_DIR=/tmp/seedrun-out/$ID/replays VERIF_SCRATCH_TAG=-seed-$ID /verif/bin/check $PROP --tier $TIER > /tmp/seedrun-out/$ID/$PROP.out 2>&1
 rc=$?
 git -C /repo worktree remove --force $WT
 case $rc in
